@@ -959,7 +959,7 @@ package zap
 //@   flags nopanic
 //@   requires !held(&_encoderMutex)
 //@   modifies held(&_encoderMutex), $user
-//@   ensures result.1 == nil ==> result.0 != nil
+//@   ensures result.1 == nil ==> result.0 != nil && encInv(result.0)
 
 //@ func (zap.Config).buildOptions
 //@   props C19
@@ -1054,7 +1054,7 @@ package zap
 // A registered encoder constructor returns an encoder or an error (rely on registered constructors).
 //@ callback type:func(zapcore.EncoderConfig) (zapcore.Encoder, error)
 //@   modifies $user
-//@   ensures result.1 == nil ==> result.0 != nil
+//@   ensures result.1 == nil ==> result.0 != nil && encInv(result.0)
 
 //@ func zap.newEncoder
 //@   props C19 C09
@@ -1063,7 +1063,7 @@ package zap
 //@   ensures !held(&_encoderMutex)
 //@   ensures encoderConfig.TimeKey != "" && encoderConfig.EncodeTime == nil ==> result.1 != nil && result.0 == nil
 //@   ensures name == "" ==> result.1 != nil
-//@   ensures result.1 == nil ==> result.0 != nil
+//@   ensures result.1 == nil ==> result.0 != nil && encInv(result.0)
 //@   ensures !old(has(_encoderNameToConstructor, name)) ==> result.1 != nil && result.0 == nil
 
 // ---------------------------------------------------------------------------
